@@ -26,8 +26,8 @@ typedef struct { int ci, p; } grp_t;
 static grp_t groups[MAXCFG * 40];
 static long ngroups;
 
-enum { E_TRUNC = 0, E_BYTE, E_W2, E_W3, E_SPLIT, E_COALESCE, E_RAW, E_HDR, E_REFLIGHT, E_VEC, E_OLD, E_NK };
-static const char *ename[] = { "truncate", "byte", "window16", "window24", "split-record", "coalesce", "raw-string", "raw-header", "re-record-flight", "vector-resize", "earlier-unit-again" };
+enum { E_TRUNC = 0, E_BYTE, E_W2, E_W3, E_SPLIT, E_COALESCE, E_RAW, E_HDR, E_REFLIGHT, E_VEC, E_OLD, E_CCSN, E_NK };
+static const char *ename[] = { "truncate", "byte", "window16", "window24", "split-record", "coalesce", "raw-string", "raw-header", "re-record-flight", "vector-resize", "earlier-unit-again", "ccs-records-in-front" };
 #define HIST_MAX 12
 #define HIST_LEN 4200
 typedef struct { unsigned char kind; int off, val; } edit_t;
@@ -270,6 +270,34 @@ static void run_case(void *ctx, mx_result_t *r)
             }
         }
         consumed_seed = 0;
+        break;
+    }
+    case E_CCSN:
+    {
+        /* off = number of plaintext ChangeCipherSpec records put in front of the seed in the SAME buffer (TLS 1.3 ignores
+           them at any time after the ClientHello; <= 1.2 must refuse them unless one is due); val = 1: without the seed */
+        int k, o2 = 0;
+        static unsigned char tmp[41000];
+        for (k = 0; k < e->off; k++)
+        {
+            tmp[o2++] = 20; tmp[o2++] = dtls ? 0xfe : 3; tmp[o2++] = dtls ? 0xfd : 3;
+            if (dtls)
+            {
+                memset(tmp + o2, 0, 8); tmp[o2 + 7] = (unsigned char) (0x60 + k); o2 += 8;
+            }
+            tmp[o2++] = 0; tmp[o2++] = 1; tmp[o2++] = 1;
+        }
+        if (e->val == 0)
+        {
+            memcpy(tmp + o2, g->seed, (size_t) g->seed_len);
+            o2 += g->seed_len;
+        }
+        else
+        {
+            consumed_seed = 0;
+        }
+        memcpy(buf, tmp, (size_t) o2);
+        len = o2;
         break;
     }
     case E_RAW:
@@ -831,6 +859,11 @@ static void run_group(long gi, void *unused)
             {
                 fork_edit(&g, E_COALESCE, 0, 0);
                 fork_edit(&g, E_COALESCE, 0, 1);
+            }
+            for (k = 1; k <= 3; k++)
+            {
+                fork_edit(&g, E_CCSN, k, 0);
+                fork_edit(&g, E_CCSN, k, 1);
             }
             /* structure-preserving resize of every length-prefixed vector of a plaintext handshake unit */
             {
